@@ -10,6 +10,7 @@ import (
 	"fmt"
 	"math/big"
 	"strings"
+	"sync"
 	"testing"
 	"time"
 
@@ -33,7 +34,7 @@ var c04Endpoints = []string{"connect", "update", "updateLegacy", "peer", "host",
 
 var c04Alterations = []string{
 	"none", "none", "none",
-	"method", "identity", "nonce+1", "nonce-1", "param", "sigbyte", "otherkey", "empty", "short", "garbage", "alphabet", "style",
+	"method", "identity", "idcase", "nonce+1", "nonce-1", "param", "sigbyte", "otherkey", "empty", "short", "garbage", "alphabet", "style",
 }
 
 func genText(rt *rapid.T, label string) string {
@@ -461,6 +462,18 @@ func TestC04SignedEndpoints(t *testing.T) {
 				} else {
 					id = other.nodeID
 				}
+			case "idcase":
+				// the same identity spelled differently (hex case): the signature covers the string as sent
+				spell := rapid.SampledFrom([]string{"lower", "upper", "mixed"}).Draw(rt, "spelling")
+				alt2 := respell(id, spell)
+				if alt2 == id {
+					alt2 = respell(id, "upper")
+				}
+				if alt2 == id {
+					alt2 = respell(id, "lower")
+				}
+				id = alt2
+				detail = spell
 			case "nonce+1":
 				nonce++
 			case "nonce-1":
@@ -583,4 +596,90 @@ func TestC04SignedEndpoints(t *testing.T) {
 func decode2(b64 string) []byte {
 	b, _ := base64.StdEncoding.DecodeString(b64)
 	return b
+}
+
+// respell changes the hex-digit case of an identity (keeping a 0x prefix as it is).
+func respell(id, how string) string {
+	prefix, body := "", id
+	if strings.HasPrefix(id, "0x") {
+		prefix, body = "0x", id[2:]
+	}
+	switch how {
+	case "lower":
+		body = strings.ToLower(body)
+	case "upper":
+		body = strings.ToUpper(body)
+	default:
+		b := []byte(strings.ToLower(body))
+		for i := range b {
+			if i%2 == 0 && b[i] >= 'a' && b[i] <= 'f' {
+				b[i] -= 32
+			}
+		}
+		body = string(b)
+	}
+	return prefix + body
+}
+
+// TestC04Concurrent — verification of one request is independent of other requests being verified at the same time.
+func TestC04Concurrent(t *testing.T) {
+	rec := vt.For("C04")
+	rec.Rule("concurrent verification (free-running, -race): 2-8 goroutines submit correctly signed and single-alteration requests of different identities and endpoints at the same instant; oracle: every unaltered request passes verification and every altered one is refused, exactly as when sent alone; any race report fails; distinct by the request mix")
+	rapid.Check(t, func(rt *rapid.T) {
+		rapid.SyncTest(rt, func(rt *rapid.T) {
+			f := newC04Fixture(rt)
+			defer f.s.close()
+			time.Sleep(time.Second)
+			n := rapid.IntRange(2, 8).Draw(rt, "n")
+			type job struct {
+				r       c04Req
+				sig     string
+				altered bool
+				desc    string
+			}
+			var jobs []job
+			for i := 0; i < n; i++ {
+				endpoint := rapid.SampledFrom([]string{"update", "peer", "connect", "client", "updateLegacy"}).Draw(rt, "endpoint")
+				who := f.s.agents[1+i%4].id // distinct identities where possible (an identity is sequential)
+				if i >= 4 {
+					who = nodeIdent(5 + i%4)
+				}
+				r := genC04Req(rt, endpoint, who, walletIdent(0))
+				altered := rapid.Bool().Draw(rt, "altered")
+				method := r.method
+				if altered {
+					method = "vipnode_ping" // signed for another method
+				}
+				sig := mustSign(r.who.key, method, r.id(), r.nonce, r.signArgs...)
+				jobs = append(jobs, job{r, sig, altered, fmt.Sprintf("%s by %s altered=%v", endpoint, who.name, altered)})
+			}
+			errs := make([]error, n)
+			var wg sync.WaitGroup
+			start := make(chan struct{})
+			for i := range jobs {
+				wg.Add(1)
+				go func() {
+					defer wg.Done()
+					<-start
+					errs[i] = f.submit(jobs[i].r, jobs[i].sig, jobs[i].r.id(), jobs[i].r.nonce, jobs[i].r.arg, false)
+				}()
+			}
+			close(start)
+			wg.Wait()
+			var descs []string
+			for i, j := range jobs {
+				descs = append(descs, j.desc)
+				k := classifyErr(errs[i]).Kind
+				if j.altered && k != "verify" {
+					rt.Fatalf("request %q signed for another method was not refused while %d others were verified concurrently: %v", j.desc, n-1, errs[i])
+				}
+				if !j.altered && k == "verify" {
+					rt.Fatalf("correctly signed request %q was refused while %d others were verified concurrently: %v", j.desc, n-1, errs[i])
+				}
+			}
+			rec.Case(fmt.Sprintf("conc|%v", descs), true, []string{"concurrent-verify"}, func() interface{} {
+				return map[string]interface{}{"kind": "concurrent verification", "requests": descs}
+			})
+		})
+	})
 }
